@@ -404,6 +404,20 @@ func c05Decoded(c *ev.Collector, rt *rapid.T) {
 		return
 	}
 	c.NonTrivial(ev.Hash64([]byte(kind), b))
+	// the six standard actions the pinned tree decodes into a bare 4-byte header (known finding of C04,
+	// one root cause): a frame carrying one cannot come back as it was
+	bare := false
+	sm.Tree.Walk(func(n *spec.Node) {
+		switch n.Kind {
+		case "act.copy_ttl_out", "act.copy_ttl_in", "act.dec_mpls_ttl", "act.pop_pbb", "act.set_mpls_ttl", "act.set_nw_ttl":
+			bare = true
+		}
+	})
+	if bare {
+		// nothing behind such an action is where it belongs in the decoded value: no round trip to judge
+		c.Excluded("decoded frame carries a standard action that is decoded as a bare header (known finding of C04)")
+		return
+	}
 	if !bytes.Equal(b, wire) {
 		// The value exists only as the decoder made it, and the model's frames are canonical (one wire form per
 		// value, zero padding): what the value encodes to is the frame it was made from. The round trip below
